@@ -175,12 +175,30 @@ def comp {V : Type} (lit : Nat → V) (entry : Nat → Nat) : Stmt V → Nat →
       [nopI] ++ comp lit entry body (base + 1) base (base + size body + 2) rl ++ [⟨.jmp, none, [.num (lit base)]⟩, nopI]
 
 /-- the block of procedure `k` placed at its entry line: `f: ; body ; fend: ; j ra` -/
+def hasCall {V : Type} : Stmt V → Bool
+  | .call _ => true
+  | .seq p q => hasCall p || hasCall q
+  | .ite _ _ _ p q => hasCall p || hasCall q
+  | .ifThen _ _ _ p => hasCall p
+  | .while _ _ _ body => hasCall body
+  | .loop body => hasCall body
+  | _ => false
+
+def pushRa {V : Type} : Instr Reg V := ⟨.push, none, [.reg Special.ra]⟩
+def popRa {V : Type} : Instr Reg V := ⟨.pop, some Special.ra, []⟩
+def retI {V : Type} : Instr Reg V := ⟨.jmp, none, [.reg Special.ra]⟩
+
+/-- the block of procedure `k`: `f: ; body ; fend: ; j ra`, and for a procedure that calls others `push ra` right after the
+    entry label and `pop ra` right after the end label (fixed-slot convention of `add_ra_instructions`) -/
 def compProc {V : Type} (lit : Nat → V) (entry : Nat → Nat) (body : Stmt V) (k : Nat) : List (Instr Reg V) :=
-  [nopI] ++ comp lit entry body (entry k + 1) 0 0 (entry k + 1 + size body) ++ [nopI, ⟨.jmp, none, [.reg Special.ra]⟩]
+  if hasCall body then
+    [nopI, pushRa] ++ comp lit entry body (entry k + 2) 0 0 (entry k + 2 + size body) ++ [nopI, popRa, retI]
+  else
+    [nopI] ++ comp lit entry body (entry k + 1) 0 0 (entry k + 1 + size body) ++ [nopI, retI]
 
 /-! ### program layout: main code, then one block per procedure -/
 
-def blockSize {V : Type} (b : Stmt V) : Nat := size b + 3
+def blockSize {V : Type} (b : Stmt V) : Nat := size b + 3 + (if hasCall b then 2 else 0)
 
 /-- line of procedure `k`'s entry label -/
 def entryOf {V : Type} (mainSize : Nat) (procs : List (Stmt V)) (k : Nat) : Nat := mainSize + ((procs.take k).map blockSize).sum
@@ -205,49 +223,64 @@ def NoCall {V : Type} : Stmt V → Prop
   | _ => True
 
 def opndOk {V : Type} : Opnd Reg V → Prop
-  | .reg r => r ≠ (Special.ra : Reg)
+  | .reg r => r ≠ (Special.ra : Reg) ∧ r ≠ (Special.sp : Reg)
   | .num _ => True
 
+/-- a stack cell a program may use as memory: a literal address at or above `lo` (the cells below belong to the call stack) -/
+def addrOk {V : Type} (sem : Sem V) (lo : Nat) : Opnd Reg V → Prop
+  | .num v => ∃ n, sem.toAddr v = some n ∧ lo ≤ n ∧ n < stackSize
+  | .reg _ => False
+
+def regOk (x : Reg) : Prop := x ≠ (Special.ra : Reg) ∧ x ≠ (Special.sp : Reg)
+
 /-- well-formedness of a core program: every branch uses a suffix that negates its condition (on as many values as it
-    compares), `ra` (register 17) is neither read nor written by the program's own instructions, and every called procedure
-    satisfies `ok` -/
-def Good {V : Type} (sem : Sem V) (ok : Nat → Prop) : Stmt V → Prop
-  | .alu x _ args => x ≠ (Special.ra : Reg) ∧ ∀ o ∈ args, opndOk o
-  | .load x _ args => x ≠ (Special.ra : Reg) ∧ ∀ o ∈ args, opndOk o
+    compares), `ra` and `sp` are neither read nor written by the program's own instructions, the own stack is used as memory only
+    at literal addresses at or above `lo` (below is the call stack), and every called procedure satisfies `ok` -/
+def Good {V : Type} (sem : Sem V) (lo : Nat) (ok : Nat → Prop) : Stmt V → Prop
+  | .alu x _ args => regOk x ∧ ∀ o ∈ args, opndOk o
+  | .load x _ args => regOk x ∧ ∀ o ∈ args, opndOk o
   | .store _ args => ∀ o ∈ args, opndOk o
   | .sleep a => opndOk a
-  | .getm x a => x ≠ (Special.ra : Reg) ∧ opndOk a
-  | .putm a v => opndOk a ∧ opndOk v
+  | .getm x a => regOk x ∧ addrOk sem lo a
+  | .putm a v => addrOk sem lo a ∧ opndOk v
   | .call k => ok k
-  | .seq p q => Good sem ok p ∧ Good sem ok q
+  | .seq p q => Good sem lo ok p ∧ Good sem lo ok q
   | .ite c neg args p q =>
-      (∀ vals : List V, vals.length = args.length → sem.cond neg vals = !sem.cond c vals) ∧ (∀ o ∈ args, opndOk o) ∧ Good sem ok p ∧ Good sem ok q
+      (∀ vals : List V, vals.length = args.length → sem.cond neg vals = !sem.cond c vals) ∧ (∀ o ∈ args, opndOk o) ∧ Good sem lo ok p ∧ Good sem lo ok q
   | .ifThen c neg args p =>
-      (∀ vals : List V, vals.length = args.length → sem.cond neg vals = !sem.cond c vals) ∧ (∀ o ∈ args, opndOk o) ∧ Good sem ok p
+      (∀ vals : List V, vals.length = args.length → sem.cond neg vals = !sem.cond c vals) ∧ (∀ o ∈ args, opndOk o) ∧ Good sem lo ok p
   | .while c neg args body =>
-      (∀ vals : List V, vals.length = args.length → sem.cond neg vals = !sem.cond c vals) ∧ (∀ o ∈ args, opndOk o) ∧ Good sem ok body
-  | .loop body => Good sem ok body
+      (∀ vals : List V, vals.length = args.length → sem.cond neg vals = !sem.cond c vals) ∧ (∀ o ∈ args, opndOk o) ∧ Good sem lo ok body
+  | .loop body => Good sem lo ok body
   | _ => True
 
 def opndOkB {V : Type} : Opnd Reg V → Bool
-  | .reg r => r != (Special.ra : Reg)
+  | .reg r => r != (Special.ra : Reg) && r != (Special.sp : Reg)
   | .num _ => true
+
+def addrOkB {V : Type} (sem : Sem V) (lo : Nat) : Opnd Reg V → Bool
+  | .num v => match sem.toAddr v with
+    | some n => decide (lo ≤ n) && decide (n < stackSize)
+    | none => false
+  | .reg _ => false
+
+def regOkB (x : Reg) : Bool := x != (Special.ra : Reg) && x != (Special.sp : Reg)
 
 /-- executable form of `Good` against a table of (condition, branch suffix, number of compared operands) and the list of
     procedures that may be called -/
-def goodB {V : Type} (pairs : List (String × String × Nat)) (procs : List Nat) : Stmt V → Bool
-  | .alu x _ args => x != (Special.ra : Reg) && args.all opndOkB
-  | .load x _ args => x != (Special.ra : Reg) && args.all opndOkB
+def goodB {V : Type} (sem : Sem V) (lo : Nat) (pairs : List (String × String × Nat)) (procs : List Nat) : Stmt V → Bool
+  | .alu x _ args => regOkB x && args.all opndOkB
+  | .load x _ args => regOkB x && args.all opndOkB
   | .store _ args => args.all opndOkB
   | .sleep a => opndOkB a
-  | .getm x a => x != (Special.ra : Reg) && opndOkB a
-  | .putm a v => opndOkB a && opndOkB v
+  | .getm x a => regOkB x && addrOkB sem lo a
+  | .putm a v => addrOkB sem lo a && opndOkB v
   | .call k => procs.contains k
-  | .seq p q => goodB pairs procs p && goodB pairs procs q
-  | .ite c neg args p q => pairs.contains (c, neg, args.length) && args.all opndOkB && goodB pairs procs p && goodB pairs procs q
-  | .ifThen c neg args p => pairs.contains (c, neg, args.length) && args.all opndOkB && goodB pairs procs p
-  | .while c neg args body => pairs.contains (c, neg, args.length) && args.all opndOkB && goodB pairs procs body
-  | .loop body => goodB pairs procs body
+  | .seq p q => goodB sem lo pairs procs p && goodB sem lo pairs procs q
+  | .ite c neg args p q => pairs.contains (c, neg, args.length) && args.all opndOkB && goodB sem lo pairs procs p && goodB sem lo pairs procs q
+  | .ifThen c neg args p => pairs.contains (c, neg, args.length) && args.all opndOkB && goodB sem lo pairs procs p
+  | .while c neg args body => pairs.contains (c, neg, args.length) && args.all opndOkB && goodB sem lo pairs procs body
+  | .loop body => goodB sem lo pairs procs body
   | _ => true
 
 def noCallB {V : Type} : Stmt V → Bool
